@@ -124,6 +124,21 @@ CHECKS += [
      "note": "Stored task hashes are taken as they are (a renamed inner task keeps the hash computed under its old name; not part of the statement)."},
 ]
 
+CHECKS += [
+    {"id": "C16", "engine": "enum", "level": "exploration",
+     "technique": "bounded-exhaustive enumeration of values x insertion orders, hashed in fresh processes per hash seed until all iteration orders were observed",
+     "text": "A value family of depth <=2 (scalars, containers, every non-empty subset of 5 element alphabets as set/frozenset in every insertion "
+     "order, bare and nested in 8 container positions) is hashed in fresh interpreters, one per PYTHONHASHSEED, adding seeds until all 3! "
+     "iteration orders of a 3-string set have been seen; one hash per abstract value. Nested sets are a known finding.",
+     "note": "Exhaustiveness claim = all iteration orders of <=3-element string sets observed, not the seed range."},
+    {"id": "C35", "engine": "enum", "level": "exploration",
+     "technique": "bounded-exhaustive enumeration of INI configurations, round-trip oracle",
+     "text": "All subsets of <=3 sections from 5 (dotted up to depth 3) x pairs of 15 value kinds (escaped dollars, interpolation, config-dir paths, "
+     "special characters) go through get_config_dict and Config(config_dict=...); section paths and effective values must be equal; "
+     "replace_config_dir must change exactly the values containing the local config dir.",
+     "note": "Only texts the loader accepts and whose original values can be read; a section is never mixed with its own sub-section."},
+]
+
 _ALL = [f"C{i:02d}" for i in range(1, 39)]
 _claimed = {c["id"] for c in CHECKS}
 _REASONS = {}
